@@ -9,11 +9,16 @@ import (
 
 	"ledgerlint/internal/astx"
 	"ledgerlint/internal/core"
+	"ledgerlint/internal/sqlfe"
 )
 
 func init() {
 	register("C21", checkC21)
 	addBreakers("C21",
+		Breaker{Name: "offset-window-unordered", File: "internal/storage/common/paginator_offset.go",
+			Old: "\tsb = sb.Order(orderExpression)\n", New: "\t_ = orderExpression\n", Expect: "PAGE/offset"},
+		Breaker{Name: "group-by-binds-input-column", File: "internal/storage/ledger/resource_volumes.go",
+			Old: "\t\tModelTableExpr(\"(?) data\", intermediate).\n\t\tColumn(\"account\", \"asset\").\n", New: "\t\tModelTableExpr(\"(?) data\", intermediate).\n\t\tColumnExpr(\"split_part(account, ':', 1) as account\").\n\t\tColumn(\"asset\").\n", Expect: "SQLS/group-by-alias"},
 		Breaker{Name: "next-page-skips-boundary-row", File: "internal/storage/common/paginator_column.go",
 			Old: "sb = sb.Where(fmt.Sprintf(\"%s >= ?\", paginationColumn), paginationID)", New: "sb = sb.Where(fmt.Sprintf(\"%s > ?\", paginationColumn), paginationID)", Expect: "PAGE/column-window"},
 		Breaker{Name: "previous-page-repeats-boundary-row", File: "internal/storage/common/paginator_column.go",
@@ -54,6 +59,9 @@ func checkC21(c *core.Ctx) {
 	rulePaginateDispatch(c)
 	// "exactly once": a history join that returns one row per revision duplicates the entity
 	ruleHistoryLatestRevision(c)
+	// … and a GROUP BY that binds to the input column instead of the projected key returns the
+	// key once per underlying row
+	ruleGroupByBindsAlias(c)
 }
 
 func nospace(s string) string { return strings.ReplaceAll(s, " ", "") }
@@ -335,6 +343,12 @@ func ruleOffsetPaginator(c *core.Ctx) {
 			okO = true
 		}
 	}
+	// the statement that carries OFFSET/LIMIT is ordered: a window over an unordered set is arbitrary
+	if len(scopeCalls(scope, named("Limit"))) > 0 && len(scopeCalls(scope, named("Order")))+len(scopeCalls(scope, named("OrderExpr"))) == 0 {
+		c.Fail("PAGE/offset", key+":window-ordered", pos(c, d.Decl), "the offset paginator applies OFFSET/LIMIT to a statement it does not order: the pages are windows over an arbitrary row order (rows repeated and skipped across pages), whatever order the outer query gives the rows it received")
+	} else {
+		c.Pass("PAGE/offset", key+":window-ordered", pos(c, d.Decl), "ORDER BY on the statement carrying OFFSET/LIMIT")
+	}
 	if !recO {
 		c.Fail("PAGE/offset", key+":offset", pos(c, d.Decl), "the offset paginator never applies an OFFSET: every page is the first page")
 	} else {
@@ -481,4 +495,70 @@ func rulePaginateDispatch(c *core.Ctx) {
 		okP = flow.Dominates(bf[0], pg[0]) && flow.Dominates(pg[0], sc[0]) && flow.Dominates(sc[0], bc[0])
 	}
 	c.Shape(recP, okP, "PAGE/dispatch", key+":pipeline", pos(c, d.Decl), "filtered dataset → paginator window → scan → cursor from the scanned rows", "Paginate does not apply the paginator's window to the filtered dataset and build the cursor from the rows it scanned")
+}
+
+// ruleGroupByBindsAlias (SQLS): in PostgreSQL a GROUP BY name that is both an input column and an
+// output alias means the input column. A statement that projects `f(x) as x` and groups by `x`
+// therefore groups by the untransformed column: the projected key is no longer unique in the
+// result (grouped listings return a key once per underlying row, spread over pages).
+func ruleGroupByBindsAlias(c *core.Ctx) {
+	m := bunModel(c, pkgStore)
+	n := 0
+	for _, s := range m.Stmts {
+		if s.Kind != "select" {
+			continue
+		}
+		groups := map[string]bool{}
+		for _, cl := range s.ClausesNamed("Group", "GroupExpr") {
+			for _, alt := range cl.SQL {
+				for _, part := range strings.Split(alt, ",") {
+					toks, err := sqlfe.Lex(strings.TrimSpace(part))
+					if err == nil && len(toks) == 1 {
+						if name, ok := toks[0].Name(); ok {
+							groups[strings.ToLower(name)] = true
+						}
+					}
+				}
+			}
+		}
+		if len(groups) == 0 {
+			continue
+		}
+		for _, cl := range s.ClausesNamed("ColumnExpr") {
+			for _, alt := range cl.SQL {
+				toks, err := sqlfe.Lex(alt)
+				if err != nil || len(toks) < 3 {
+					continue
+				}
+				// trailing `as <alias>`
+				last := toks[len(toks)-1]
+				alias, ok := last.Name()
+				if !ok || !strings.EqualFold(toks[len(toks)-2].Text, "as") {
+					continue
+				}
+				alias = strings.ToLower(alias)
+				if !groups[alias] {
+					continue
+				}
+				body := toks[:len(toks)-2]
+				if len(body) == 1 {
+					continue // `x as x`
+				}
+				mentions := false
+				for i, tk := range body {
+					if nm, ok := tk.Name(); ok && strings.ToLower(nm) == alias {
+						// not a function name, not a qualified member of something else
+						if i+1 < len(body) && body[i+1].IsOp("(") {
+							continue
+						}
+						mentions = true
+					}
+				}
+				n++
+				key := fmt.Sprintf("%s:%s:group-by-%s", enclKey(pkgStore, s.Encl), s.Describe(), alias)
+				c.Check(!mentions, "SQLS/group-by-alias", key, pos(c, cl.Call), "GROUP BY "+alias+" names the projected key", "this statement projects an expression of the input column `"+alias+"` under the same name and groups by `"+alias+"`: PostgreSQL resolves the GROUP BY name to the input column, so rows are grouped by the untransformed value and the projected key comes back once per underlying row")
+			}
+		}
+	}
+	c.Stats["group_by_alias_sites"] = n
 }
